@@ -11,6 +11,8 @@ def plan(tier):
     G = C01.grammars()
     sh = []
     for gi, g in enumerate(G):
+        if getattr(g, 'mixed', False):
+            continue        # the statement of C10 is about head-uniform grammars
         T = len(g.tags)
         real = g.name.startswith(('en', 'ja'))
         for n in (1, 2, 3):
